@@ -400,6 +400,37 @@ func runC20(r *Run) {
 		r.atLeast("request-cookie visitors in the module", n, 1)
 	})
 
+	r.rule("R10", "one Set-Cookie line per name: the middleware's encrypt step fetches and rewrites response cookies by name, which reaches the first cookie of a name only — so (*DefaultCtx).Cookie writes the response cookie through ResponseHeader.SetCookie (replace by name) alone and adds no second Set-Cookie line by another header call; with two lines of one name the first is encrypted twice and the second leaves in plaintext (E2 who-may-write, the agreement between Cookie and the middleware)", func() {
+		f := r.Fn("", "(*DefaultCtx).Cookie")
+		nSet := 0
+		for _, c := range callsIn(f, false) {
+			if !strings.Contains(c.Name, "fasthttp.ResponseHeader).") {
+				continue
+			}
+			m := c.Name[strings.LastIndex(c.Name, ".")+1:]
+			switch {
+			case m == "SetCookie":
+				nSet++
+			case strings.HasPrefix(m, "Add") || strings.HasPrefix(m, "Set") || m == "AppendBytes":
+				// a write of another header line: must not be Set-Cookie
+				isCookieLine := false
+				for _, a := range c.Common.Args {
+					if str, ok := constString(asConst(a)); ok && strings.EqualFold(str, "Set-Cookie") {
+						isCookieLine = true
+					}
+				}
+				if isCookieLine || strings.HasPrefix(m, "Add") {
+					r.bad("Cookie:"+m+":one-line-per-name", r.pos(c.Instr), "Cookie() writes a header line beside ResponseHeader.SetCookie ("+m+"): a second Set-Cookie of the same name — set for another path or domain — is out of reach of the encryptcookie middleware's by-name rewrite, `sid=plain-secret; path=/shop` leaves in plaintext while the first sid is encrypted twice")
+				}
+			}
+		}
+		r.check(nSet >= 1, "Cookie:written-through-SetCookie", r.fpos(f), "the response cookie is written through ResponseHeader.SetCookie", "Cookie() no longer writes through ResponseHeader.SetCookie: not the shape the rule reads")
+	})
+
+	r.rule("R11", "the snapshot of names is the request's own: the handler runs for many requests at once; the memory it collects the request's cookie names in (and anything else it appends to) is created per request, not once in New and re-sliced — two requests inside the middleware would overwrite each other's names, an authentic second cookie then reaches the handler as ciphertext (E2 ownership: no append onto / store into a slice captured from the constructor)", func() {
+		handlerScratchIsPerRequestRule(r, encPkg, "New", "a second request overwrites the names of the first while it is between two cookies, the first request's remaining cookies are not decrypted and reach its handler as base64 ciphertext (neither the original value nor empty)")
+	})
+
 	r.rule("R9", "a truncated value is an error, not a crash: where DecryptCookie (or any function of the package) cuts the decoded bytes at a position it took from elsewhere (the nonce size), the length it compared that position with is the length of the bytes it cuts — not of the text before decoding (contradiction rule, E1)", func() {
 		sliceBoundOnItsOwnValueRule(r, encPkg)
 	})
